@@ -519,7 +519,7 @@ def is_free(op):
     return False
 
 
-def alias_probe(data, where):
+def alias_probe(data, where, deep=False):
     """the three bookkeeping lists of PassData (and of a copy) must be pairwise distinct objects,
     and mutating one in place must not change the others.  Returns a list of problems."""
     bad = []
@@ -532,6 +532,8 @@ def alias_probe(data, where):
                 if lists[i] is lists[j]:
                     bad.append('%s%s: %s and %s are the same list object' % (where, tag, names[i], names[j]))
     probe(data, '')
+    if not deep:
+        return sorted(set(bad))
     try:
         cp = data.copy()
     except Exception as e:  # noqa
@@ -671,7 +673,7 @@ def run_impl(case):
     obs['toks'] = toks
     obs['edges_final'] = edges_final
     obs['mach_adj'] = adj_of_cg(cgm)
-    obs['alias'] = alias_probe(data, 'PassData(circuit)')
+    obs['alias'] = alias_probe(data, 'PassData(circuit)', deep=True)
 
     def snap():
         return dict(placement=list(data.placement), imap=list(data.initial_mapping), fmap=list(data.final_mapping))
@@ -717,6 +719,7 @@ def run_impl(case):
         force[name] = cur
     obs['force'] = force
     asyncio.run(go())
+    obs['alias'] += alias_probe(data, 'end of pipeline', deep=True)
     if 'routing_placement' in obs:
         last_rt = [nm for nm, _ in obs['stages'] if nm.startswith('routing')][-1]
         obs['routing_edges'] = force[last_rt]
@@ -982,7 +985,7 @@ def oracle(case, obs, rng):
     bad = []
     for a in obs.get('alias', []):
         bad.append(('aliasing', 'placement / initial_mapping / final_mapping are three independent lists', a))
-    if bad or obs['error'] is not None:
+    if obs['error'] is not None:
         return bad
     n, m_mach, radix = case['n'], case['m'], case['radix']
     final = obs['final']
@@ -1309,7 +1312,7 @@ def run_pam(case):
     passes.append(('prouting', recording_pam(PAMRoutingPass, log, adversary, score_adv)(case['gcw'], **kw)))
     passes.append(('apply', ApplyPlacement()))
     obs = dict(stages=[], infos=[], error=None, kind='pam', mach_adj=madj, edges_final=case['edges'])
-    obs['alias'] = alias_probe(data, 'PassData(circuit)')
+    obs['alias'] = alias_probe(data, 'PassData(circuit)', deep=True)
 
     def snap():
         return dict(placement=list(data.placement), imap=list(data.initial_mapping), fmap=list(data.final_mapping))
@@ -1343,6 +1346,7 @@ def run_pam(case):
             obs['stages'].append((name, snap()))
             obs['infos'].append((name, info))
     asyncio.run(go())
+    obs['alias'] += alias_probe(data, 'end of pipeline', deep=True)
     obs['log'] = log
     obs['original'] = original
     obs['final'] = circuit
@@ -1537,7 +1541,7 @@ def pam_oracle(case, obs, rng):
     bad = []
     for a in obs.get('alias', []):
         bad.append(('aliasing', 'placement / initial_mapping / final_mapping are three independent lists', a))
-    if bad or obs['error'] is not None:
+    if obs['error'] is not None:
         return bad
     n, m, radix = case['n'], case['m'], case['radix']
     edges = {tuple(sorted(e)) for e in case['edges']}
@@ -1566,7 +1570,7 @@ def pam_oracle(case, obs, rng):
     for k in set(ki) | set(ko):
         if k != 'SWAP' and ki.get(k, 0) != ko.get(k, 0):
             bad.append(('gates', 'same number of %s' % k, (ki.get(k, 0), ko.get(k, 0))))
-    if bad:
+    if any(b[0] != 'aliasing' for b in bad):
         return bad
     if radix ** n <= 64:
         states = [list(x) for x in itertools.product(range(radix), repeat=n)]
@@ -1924,7 +1928,11 @@ def report(ctx, case, res, do_shrink=True):
         r2 = evaluate(c2) if c2 is not case else res
         o = (r2['oracle'] or res['oracle'])[0]
         ctx.violation(dict(call='mapping pipeline', symptom=o[0]), c2, o[1], o[2],
-                      'output of [SetModel, placement, layout, routing, ApplyPlacement] violates the property: ' + o[0])
+                      'output of the mapping pass sequence violates the property: ' + o[0])
+        for o2 in res['oracle'][1:]:
+            if o2[0] != o[0]:
+                ctx.violation(dict(call='mapping pipeline', symptom=o2[0]), case, o2[1], o2[2],
+                              'output of the mapping pass sequence violates the property: ' + o2[0])
         hit = True
     if res['diffs']:
         d = res['diffs'][0]
